@@ -131,6 +131,12 @@ def simulation(args_dict):
                 remove_empty=data.get('remove_empty', False),
             )
 
+        # The CLI documents and parses `cell_number`; the gridding routines
+        # expect `cell_numbers`.
+        gopts = cfg['simulation_options'].get('gridding_opts', {})
+        if 'cell_number' in gopts:
+            gopts['cell_numbers'] = gopts.pop('cell_number')
+
         # Switch-off tqdm if verbosity is zero.
         if verb < 1:
             cfg['simulation_options']['tqdm_opts'] = False
